@@ -1,3 +1,4 @@
 SPECIFICATION Spec
 INVARIANT Emit
+INVARIANT EmitSessions
 CHECK_DEADLOCK FALSE
